@@ -1069,6 +1069,37 @@ func callBuiltin(caller *frame, callpos token.Pos, fn *ssa.Builtin, args []value
 		return foldLeft(func(a, b value) value { return caller.i.minmax(fn, a, b, true) }, args)
 	case "max":
 		return foldLeft(func(a, b value) value { return caller.i.minmax(fn, a, b, false) }, args)
+	case "SliceData": // unsafe.SliceData
+		sl := args[0].([]value)
+		if sl == nil {
+			return uptr{}
+		}
+		et := fn.Type().(*types.Signature).Params().At(0).Type().Underlying().(*types.Slice).Elem()
+		return caller.i.sliceAddr(sl, et)
+	case "StringData":
+		return uptr{str: args[0].(string), isStr: true}
+	case "String": // unsafe.String(ptr, len)
+		p := args[0].(uptr)
+		n := caller.i.concreteInt(args[1], 0, 1<<20, "unsafe.String len")
+		if p.isStr {
+			return p.str[:n]
+		}
+		if n == 0 {
+			return ""
+		}
+		idx, ok := caller.i.elemIndex(p, n)
+		if !ok {
+			panic(wildDeref{"unsafe.String outside its object"})
+		}
+		bs := make([]byte, n)
+		for k := int64(0); k < n; k++ {
+			b, ok := p.base[idx+k].(uint8)
+			if !ok {
+				panic(unsupported{"unsafe.String over symbolic bytes"})
+			}
+			bs[k] = b
+		}
+		return string(bs)
 	case "Add": // unsafe.Add
 		return caller.i.uptrBinop(token.ADD, args[0], args[1])
 
@@ -1124,7 +1155,7 @@ func callBuiltin(caller *frame, callpos token.Pos, fn *ssa.Builtin, args []value
 		return &caller.defers
 	}
 
-	panic("unknown built-in: " + fn.Name())
+	panic(unsupported{"unknown built-in: " + fn.Name()})
 }
 
 func rangeIter(x value, t types.Type) iter {
